@@ -82,6 +82,12 @@ def engineJudge (prop eng : String) (args obs : List String) : Bool :=
       (match Eng.concModel args with | some m => m == " ".intercalate obs | none => true))
   | "tfid" => (match Eng.tfidModel args with | some m => m == " ".intercalate obs | none => false)
   | "memo" => Memo.judge args obs
+  | "tfwrap" =>
+    -- C13 monitor: after 65536 chains registered by other WAFs every rule still sees its own list's value
+    (match obs with
+     | ["again"] => true
+     | [m, _] => (match ((m.drop 8).toString).splitOn "/" with | [a, b] => a == b && a != "0" | _ => false)
+     | _ => false)
   | "iso" => (match Eng.isoModel args with | some m => m == " ".intercalate obs | none => !obs.contains "PANIC")
   | _ => true
 
